@@ -109,6 +109,8 @@ AMerge(e) ==
         anyFailed == \E i \in DOMAIN e.in : segs[e.in[i]].failed
         bad   == IF anyFailed THEN (IF e.res.kind \in {"ok", "err"} THEN {} ELSE {"C19"})
                  ELSE IF ~ok THEN {"C02", "C03"}       \* no merged segment and no document-number map
+                                  \cup (IF \E i \in DOMAIN e.in : segs[e.in[i]].impl # segs[e.in[i]].wimpl
+                                        THEN {"C10"} ELSE {})   \* ... of a file the other implementation wrote
                  ELSE (IF e.res.docnums # map THEN {"C03"} ELSE {})
                       \cup (IF e.res.n # e.res.delivered THEN {"C11"} ELSE {})
                       \cup (IF FooterBad(e.res.footer, c, e.mode) THEN {"C11"} ELSE {})
@@ -118,7 +120,7 @@ AMerge(e) ==
                                                   mode |-> e.mode, digest |-> e.res.digest,
                                                   len |-> e.res.delivered])
                    ELSE files
-       /\ obs' = Obs("merge", {"C02", "C03", "C11"}, bad, map, e.res)
+       /\ obs' = Obs("merge", {"C02", "C03", "C10", "C11"}, bad, map, e.res)
        /\ UNCHANGED <<segs, pls, its, dvrs, bms, built, digs>>
 
 APersist(e) ==
@@ -521,7 +523,8 @@ ARace(e) ==
 \* L is the length of the fault-free file.
 OutcomeBad(o, mode, L) ==
     LET k == o[1]  err == o[2]  complete == o[4]  n == o[6] IN
-    IF mode \in {"fail", "retry"}      \* "retry": a second WriteTo on the same Merger, after a complete first one
+    IF mode \in {"fail", "retry", "fail1"}   \* "retry": a second WriteTo on the same Merger after a complete first one;
+                                              \* "fail1": a single Write call fails, later ones are accepted again
     THEN \/ err \in {"panic", "blocked", "closed"}
          \/ (k < L /\ err = "nil")                              \* silent success on a failed writer
          \/ (k >= L /\ (err # "nil" \/ ~complete \/ n # L))      \* nothing failed: must succeed fully
